@@ -446,8 +446,9 @@ End Block.
 (* Examples over Qc.  The transcendental closures are stand-ins (sqrt = exp = 1, which satisfy every hypothesis);
    the theorem assumes nothing else about them. *)
 From Coq Require Import ZArith QArith Qcanon.
+Definition exKQ : Fops Qc := QcK true (Q2Qc 3) (fun _ => Q2Qc 1) (fun _ => Q2Qc 1) (fun x => x) (fun _ x => x).
 Section Examples.
-Let KQ : Fops Qc := QcK true (Q2Qc 3) (fun _ => Q2Qc 1) (fun _ => Q2Qc 1) (fun x => x) (fun _ x => x).
+Let KQ : Fops Qc := exKQ.
 Let KQf : is_field KQ := QcK_field _ _ _ _ _ _.
 Let q (n : Z) (d : positive) : Qc := qc_of n d.
 Definition exP : shell Qc :=
